@@ -14,6 +14,7 @@
 #include "common.hpp"
 
 #include <algorithm>
+#include <utility>
 #include <new>
 #include <vector>
 
@@ -64,16 +65,16 @@ static std::vector<Step> parse(Toks& in)
         if (o == "swp") { }
         else if (o == "ctn") { need(1); }
         else if (o == "ctv") { need(2); }
-        else if (o == "ctr") { s.xs = in.list(); }
+        else if (o == "ctr" || o == "ctf" || o == "cta") { s.xs = in.list(); }
         else {
             s.t = static_cast<int>(in.num());
             if (o == "pbr" || o == "pbc" || o == "eb" || o == "era" || o == "rsz" || o == "eif" || o == "erv" || o == "tpc" || o == "tpr"
                 || o == "tpe" || o == "upc" || o == "upr" || o == "upe" || o == "sir" || o == "sic" || o == "sem" || o == "sek" || o == "fir" || o == "fic"
-                || o == "fem" || o == "fek") { need(1); }
+                || o == "fem" || o == "fek" || o == "fei") { need(1); }
             else if (o == "icr" || o == "irv" || o == "emp" || o == "err" || o == "rsv" || o == "asn") { need(2); }
             else if (o == "inn") { need(3); }
-            else if (o == "irg" || o == "mig") { need(1); s.xs = in.list(); }
-            else if (o == "asr" || o == "frp") { s.xs = in.list(); }
+            else if (o == "irg" || o == "mig" || o == "irf" || o == "mif") { need(1); s.xs = in.list(); }
+            else if (o == "asr" || o == "frp" || o == "asf") { s.xs = in.list(); }
         }
         steps.push_back(s);
     }
@@ -98,25 +99,25 @@ static bool std_step(Step const& s, SV (&v)[2], std::size_t cap, bool movable)
     else if (op == "pop") { if (sz == 0) { return false; } x.pop_back(); }
     else if (op == "icr" || op == "irv" || op == "emp") { if (A(0) < 0 || A(0) > sz || room < 1) { return false; } x.insert(x.begin() + A(0), static_cast<int>(A(1))); }
     else if (op == "inn") { if (A(0) < 0 || A(0) > sz || A(1) < 0 || A(1) > room) { return false; } x.insert(x.begin() + A(0), static_cast<std::size_t>(A(1)), static_cast<int>(A(2))); }
-    else if (op == "irg" || op == "mig") { if (A(0) < 0 || A(0) > sz || static_cast<i64>(s.xs.size()) > room) { return false; } SV src(s.xs.begin(), s.xs.end()); x.insert(x.begin() + A(0), src.begin(), src.end()); }
+    else if (op == "irg" || op == "mig" || op == "irf" || op == "mif") { if (A(0) < 0 || A(0) > sz || static_cast<i64>(s.xs.size()) > room) { return false; } SV src(s.xs.begin(), s.xs.end()); x.insert(x.begin() + A(0), src.begin(), src.end()); }
     else if (op == "era") { if (A(0) < 0 || A(0) >= sz) { return false; } x.erase(x.begin() + A(0)); }
     else if (op == "err") { if (A(0) < 0 || A(0) > A(1) || A(1) > sz) { return false; } x.erase(x.begin() + A(0), x.begin() + A(1)); }
     else if (op == "clr") { x.clear(); }
     else if (op == "rsz") { if (A(0) < 0 || A(0) > static_cast<i64>(cap)) { return false; } x.resize(static_cast<std::size_t>(A(0))); }
     else if (op == "rsv") { if (A(0) < 0 || A(0) > static_cast<i64>(cap)) { return false; } x.resize(static_cast<std::size_t>(A(0)), static_cast<int>(A(1))); }
     else if (op == "asn") { if (A(0) < 0 || A(0) > static_cast<i64>(cap)) { return false; } x.assign(static_cast<std::size_t>(A(0)), static_cast<int>(A(1))); }
-    else if (op == "asr") { if (s.xs.size() > cap) { return false; } SV src(s.xs.begin(), s.xs.end()); x.assign(src.begin(), src.end()); }
+    else if (op == "asr" || op == "asf") { if (s.xs.size() > cap) { return false; } SV src(s.xs.begin(), s.xs.end()); x.assign(src.begin(), src.end()); }
     else if (op == "swp") { v[0].swap(v[1]); }
     else if (op == "cpa") { x = y; }
     else if (op == "mva") { x = y; mark(y); }
-    else if (op == "cpc" || op == "ivc") { }
-    else if (op == "mvc") { mark(x); }
+    else if (op == "cpc" || op == "ivc" || op == "kcc") { }
+    else if (op == "mvc" || op == "kmc") { mark(x); }
     else if (op == "ivm") { x.clear(); }
     else if (op == "iva") { x = y; }
     else if (op == "ivx") { x = y; y.clear(); }
     else if (op == "isc" || op == "ism") { }
     else if (op == "mrt") { }
-    else if (op == "eif") { auto id = static_cast<int>(A(0)); std::erase_if(x, [&](int e) { return pred_of(id, e); }); }
+    else if (op == "eif" || op == "fei") { auto id = static_cast<int>(A(0)); std::erase_if(x, [&](int e) { return pred_of(id, e); }); }
     else if (op == "erv") { std::erase(x, static_cast<int>(A(0))); }
     else if (op == "sca" || op == "sma" || op == "ssw") { }
     else if (op == "sir" || op == "sic" || op == "sem" || op == "fir" || op == "fic" || op == "fem") {
@@ -133,13 +134,51 @@ static bool std_step(Step const& s, SV (&v)[2], std::size_t cap, bool movable)
     else if (op == "fex") { x.clear(); }
     else if (op == "frp") { if (s.xs.size() > cap) { return false; } x.assign(s.xs.begin(), s.xs.end()); }
     else if (op == "ctn" || op == "ctv") { if (A(0) < 0 || A(0) > static_cast<i64>(cap)) { return false; } }
-    else if (op == "ctr") { if (s.xs.size() > cap) { return false; } }
+    else if (op == "ctr" || op == "ctf" || op == "cta") { if (s.xs.size() > cap) { return false; } }
     else { return false; }
     return true;
 }
 
+// a forward iterator over T[]: not random access, so the `if constexpr (RandomAccessIterator)` capacity
+// precondition of insert / move_insert / assign / the range constructor is absent
+template <typename T>
+struct Fwd {
+    using iterator_category = etl::forward_iterator_tag;
+    using value_type        = T;
+    using difference_type   = etl::ptrdiff_t;
+    using pointer           = T*;
+    using reference         = T&;
+    T* p{nullptr};
+    auto operator*() const -> T& { return *p; }
+    auto operator->() const -> T* { return p; }
+    auto operator++() -> Fwd& { ++p; return *this; }
+    auto operator++(int) -> Fwd { auto t = *this; ++p; return t; }
+    friend auto operator==(Fwd a, Fwd b) -> bool { return a.p == b.p; }
+    friend auto operator!=(Fwd a, Fwd b) -> bool { return a.p != b.p; }
+};
+static_assert(etl::detail::InputIterator<Fwd<int>> && !etl::detail::RandomAccessIterator<Fwd<int>>);
+
+// { Vec c(etl::move(src)); } with src of type T[K]: static_vector(c_array<T, K>&&), K <= N
+template <typename Vec, typename T, std::size_t N>
+static void ctor_from_array(trk::Src<T>& src)
+{
+    auto go = [&]<std::size_t K>() {
+        if constexpr (K <= N) {
+            using Arr = T[K];
+            Vec c(etl::move(*reinterpret_cast<Arr*>(src.raw)));
+        }
+    };
+    switch (src.n) {
+    case 1: go.template operator()<1>(); break;
+    case 2: go.template operator()<2>(); break;
+    case 3: go.template operator()<3>(); break;
+    case 4: go.template operator()<4>(); break;
+    default: break;
+    }
+}
+
 // ---- impl: static_vector<T, N>
-template <typename Vec, typename T>
+template <typename Vec, typename T, std::size_t N>
 static void sv_step(Step const& s, Vec* (&v)[2])
 {
     auto& x = *v[s.t];
@@ -152,6 +191,8 @@ static void sv_step(Step const& s, Vec* (&v)[2])
     else if (op == "pop") { x.pop_back(); }
     else if (op == "irv") { T c(I(1)); x.insert(x.begin() + A(0), etl::move(c)); }
     else if (op == "mig") { trk::Src<T> src(s.xs); x.move_insert(x.begin() + A(0), src.p(), src.p() + src.n); }
+    else if (op == "mif") { trk::Src<T> src(s.xs); x.move_insert(x.begin() + A(0), Fwd<T>{src.p()}, Fwd<T>{src.p() + src.n}); }
+    else if (op == "cta") { trk::Src<T> src(s.xs); ctor_from_array<Vec, T, N>(src); }
     else if (op == "emp") { x.emplace(x.begin() + A(0), I(1)); }
     else if (op == "era") { x.erase(x.begin() + A(0)); }
     else if (op == "err") { x.erase(x.begin() + A(0), x.begin() + A(1)); }
@@ -161,7 +202,7 @@ static void sv_step(Step const& s, Vec* (&v)[2])
     else if (op == "mva") { x = etl::move(y); }
     else if (op == "mvc") { Vec c(etl::move(x)); }
     else if (op == "mrt") { Vec tmp(etl::move(x)); x = etl::move(tmp); }
-    else if (op == "eif") { auto id = I(0); (void)etl::erase_if(x, [&](T const& e) { return pred_of(id, e.v); }); }
+    else if (op == "eif" || op == "fei") { auto id = I(0); (void)etl::erase_if(x, [&](T const& e) { return pred_of(id, e.v); }); }
     else if (op == "erv") { T c(I(0)); (void)etl::erase(x, c); }
     else if (op == "sma") { auto& r = x; x = etl::move(r); }
     else if (op == "ssw") { x.swap(x); }
@@ -177,6 +218,9 @@ static void sv_step(Step const& s, Vec* (&v)[2])
             else if (op == "rsv") { T c(I(1)); x.resize(static_cast<std::size_t>(A(0)), c); }
             else if (op == "asn") { T c(I(1)); x.assign(static_cast<std::size_t>(A(0)), c); }
             else if (op == "asr") { trk::Src<T> src(s.xs); x.assign(src.p(), src.p() + src.n); }
+            else if (op == "irf") { trk::Src<T> src(s.xs); x.insert(x.begin() + A(0), Fwd<T>{src.p()}, Fwd<T>{src.p() + src.n}); }
+            else if (op == "asf") { trk::Src<T> src(s.xs); x.assign(Fwd<T>{src.p()}, Fwd<T>{src.p() + src.n}); }
+            else if (op == "ctf") { trk::Src<T> src(s.xs); { Vec c(Fwd<T>{src.p()}, Fwd<T>{src.p() + src.n}); } }
             else if (op == "cpa") { x = y; }
             else if (op == "cpc") { Vec c(x); }
             else if (op == "sca") { auto& r = x; x = r; }
@@ -245,12 +289,14 @@ static void sk_step(Step const& s, Vec* (&v)[2])
     else if (op == "swp") { v[0]->swap(*v[1]); }
     else if (op == "mva") { x = etl::move(y); }
     else if (op == "mvc") { Vec c(etl::move(x)); }
+    else if (op == "kmc") { typename Vec::base c(etl::move(x.c)); }      // stack(Container&&)
     else if (op == "mrt") { Vec tmp(etl::move(x)); x = etl::move(tmp); }
     else if (op == "sma") { auto& r = x; x = etl::move(r); }
     else if (op == "ssw") { x.swap(x); }
     else {
         if constexpr (T::copyable) {
             if (op == "pbc") { T c(I(0)); x.push(c); }
+            else if (op == "kcc") { typename Vec::base c(x.c); }         // stack(Container const&)
             else if (op == "cpa") { x = y; }
             else if (op == "cpc") { Vec c(x); }
             else if (op == "sca") { auto& r = x; x = r; }
@@ -275,6 +321,12 @@ static void set_step(Step const& s, Vec* (&v)[2])
             typename Vec::container_type c;
             for (auto e : s.xs) { c.emplace_back(static_cast<int>(e)); }
             x.replace(etl::move(c));
+        }
+    }
+    else if (op == "fei") {
+        if constexpr (Flat) {
+            auto id = I(0);
+            (void)etl::erase_if(static_cast<etl::flat_set<T, typename Vec::container_type>&>(x), [&](T const& e) { return pred_of(id, e.v); });
         }
     }
     else if (op == "era") { (void)x.erase(x.begin() + A(0)); }
@@ -302,7 +354,7 @@ static bool g_raw = false;
 
 enum Kind : int { KSv = 0, KIv = 1, KStack = 2, KSet = 3, KFlat = 4 };
 
-template <typename Vec, typename T, int K>
+template <typename Vec, typename T, int K, std::size_t N>
 static void run_hist(std::vector<Step> const& steps, std::size_t cap, Out& impl, bool monitor_only)
 {
     trk::g_log.clear();
@@ -333,7 +385,7 @@ static void run_hist(std::vector<Step> const& steps, std::size_t cap, Out& impl,
             else if constexpr (K == KStack) { sk_step<Vec, T>(s, v); }
             else if constexpr (K == KSet) { set_step<Vec, T, false>(s, v); }
             else if constexpr (K == KFlat) { set_step<Vec, T, true>(s, v); }
-            else { sv_step<Vec, T>(s, v); }
+            else { sv_step<Vec, T, N>(s, v); }
             o.tok("ok");
         });
         auto so = mon.run(where, trk::g_log, done);
@@ -354,21 +406,31 @@ static void run_hist(std::vector<Step> const& steps, std::size_t cap, Out& impl,
         if (contract) { stopped = true; break; }
         if (is_self(s.op)) { selfs += (values(*v[s.t]) == before) ? " 1" : " 0"; }
     }
+    bool wf_prefix = mon.wf;
     v[0]->~Vec();
     v[1]->~Vec();
+    if (stopped) {
+        // a precondition fired: nothing is claimed (or compared) about what happens afterwards; a member that
+        // appends element by element may have been stopped half way (forward-iterator sources)
+        if (!monitor_only) { impl.tok("; stopped ; wf").b(wf_prefix); }
+        else { impl.tok("contract wf").b(wf_prefix); }
+        return;
+    }
     auto so = mon.run(where, trk::g_log, done);
     if (!monitor_only) {
         impl.tok("; end /").tok(trk::render(so, g_raw));
         impl.tok("; wf").b(mon.wf).tok("alive").num(mon.alive());
     } else {
-        if (stopped) { impl.tok("contract"); }
         impl.tok("wf").b(mon.wf).tok("alive").num(mon.alive()).tok("self" + selfs);
     }
 }
 
-template <typename F>
+template <bool Zero = false, typename F>
 static bool with_cap(i64 cap, F&& f)
 {
+    if constexpr (Zero) {
+        if (cap == 0) { f.template operator()<0>(); return true; }   // static_vector<T, 0> / inplace_vector<T, 0>
+    }
     switch (cap) {
     case 1: f.template operator()<1>(); return true;
     case 2: f.template operator()<2>(); return true;
@@ -383,18 +445,18 @@ template <typename T>
 static bool dispatch(std::string const& kind, i64 cap, std::vector<Step> const& steps, Out& impl, bool monitor_only)
 {
     if (kind == "iv") {
-        return with_cap(cap, [&]<std::size_t N>() { run_hist<etl::inplace_vector<T, N>, T, KIv>(steps, N, impl, monitor_only); });
+        return with_cap<true>(cap, [&]<std::size_t N>() { run_hist<etl::inplace_vector<T, N>, T, KIv, N>(steps, N, impl, monitor_only); });
     }
     if (kind == "sk") {
-        return with_cap(cap, [&]<std::size_t N>() { run_hist<StackObj<T, N>, T, KStack>(steps, N, impl, monitor_only); });
+        return with_cap(cap, [&]<std::size_t N>() { run_hist<StackObj<T, N>, T, KStack, N>(steps, N, impl, monitor_only); });
     }
     if (kind == "ss") {
-        return with_cap(cap, [&]<std::size_t N>() { run_hist<SetObj<T, N>, T, KSet>(steps, N, impl, monitor_only); });
+        return with_cap(cap, [&]<std::size_t N>() { run_hist<SetObj<T, N>, T, KSet, N>(steps, N, impl, monitor_only); });
     }
     if (kind == "fs") {
-        return with_cap(cap, [&]<std::size_t N>() { run_hist<FlatObj<T, N>, T, KFlat>(steps, N, impl, monitor_only); });
+        return with_cap(cap, [&]<std::size_t N>() { run_hist<FlatObj<T, N>, T, KFlat, N>(steps, N, impl, monitor_only); });
     }
-    return with_cap(cap, [&]<std::size_t N>() { run_hist<etl::static_vector<T, N>, T, KSv>(steps, N, impl, monitor_only); });
+    return with_cap<true>(cap, [&]<std::size_t N>() { run_hist<etl::static_vector<T, N>, T, KSv, N>(steps, N, impl, monitor_only); });
 }
 
 
@@ -422,7 +484,8 @@ static std::vector<OStep> parse_own(Toks& in)
         s.op = in.str();
         auto const& o = s.op;
         if (o != "vsw" && o != "fsw") { s.t = static_cast<int>(in.num()); }
-        if (o == "vem" || o == "var" || o == "vac" || o == "vav" || o == "vat" || o == "fas" || o == "vvc" || o == "vvm") {
+        if (o == "vem" || o == "var" || o == "vac" || o == "vav" || o == "vat" || o == "fas" || o == "vvc" || o == "vvm" || o == "vsv"
+            || o == "vsu" || o == "vsr" || o == "vau" || o == "vaw" || o == "fac") {
             s.j = static_cast<int>(in.num());
             s.x = static_cast<int>(in.num());
         }
@@ -467,6 +530,11 @@ struct VarAd {
             if (s.j == 0) { Obj tmp(etl::in_place_index<0>, s.x); x = etl::move(tmp); }
             else if (s.j == 1) { Obj tmp(etl::in_place_index<1>, s.x); x = etl::move(tmp); }
             else { Obj tmp(etl::in_place_index<2>, s.x); x = etl::move(tmp); }
+        }
+        else if (op == "vsv") {
+            if (s.j == 0) { Obj c(etl::in_place_index<0>, s.x); }
+            else if (s.j == 1) { Obj c(etl::in_place_index<1>, s.x); }
+            else { Obj c(etl::in_place_index<2>, s.x); }
         }
         else if (op == "vma") { x = etl::move(y); }
         else if (op == "vsm") { auto& r = x; x = etl::move(r); }
@@ -519,6 +587,17 @@ struct OptAd {
         else if (op == "vss") { x.swap(x); }
         else if (op == "vvm") { E d(s.x); { E r = etl::move(x).value_or(etl::move(d)); (void)r; } }
         else if (op == "vom") { auto r = etl::move(x).or_else([] { return Obj{}; }); (void)r; }
+        else if (op == "vsv") {
+            if (s.j == 1) { Obj c(etl::in_place, s.x); } else { Obj c(etl::nullopt); }
+        }
+        // converting constructors / assignments from an optional<int>: emplace(*other) or reset()
+        else if (op == "vsu") { auto u = s.j == 1 ? etl::optional<int>{s.x} : etl::optional<int>{}; { Obj c(u); } }
+        else if (op == "vsr") { auto u = s.j == 1 ? etl::optional<int>{s.x} : etl::optional<int>{}; { Obj c(etl::move(u)); } }
+        else if (op == "vau") { auto u = s.j == 1 ? etl::optional<int>{s.x} : etl::optional<int>{}; x = u; }
+        else if (op == "vaw") { auto u = s.j == 1 ? etl::optional<int>{s.x} : etl::optional<int>{}; x = etl::move(u); }
+        // and_then: the callable sees the value, nothing is copied
+        else if (op == "vnd") { auto r = std::as_const(x).and_then([](E const&) { return etl::optional<int>{1}; }); (void)r; }
+        else if (op == "vne") { auto r = etl::move(x).and_then([](E&&) { return etl::optional<int>{1}; }); (void)r; }
         else {
             if constexpr (E::copyable) {
                 if (op == "vvc") { E d(s.x); { E r = x.value_or(d); (void)r; } }
@@ -557,9 +636,18 @@ struct ExpAd {
         else if (op == "vsw") { etl::swap(*v[0], *v[1]); }
         else if (op == "vss") { etl::swap(x, x); }
         else if (op == "vvm") { A d(s.x); { A r = etl::move(x).value_or(etl::move(d)); (void)r; } }
+        else if (op == "vsv") {
+            if (s.j == 0) { Obj c(etl::in_place, s.x); } else { Obj c(etl::unexpect, s.x); }
+        }
+        // and_then: the error is handed on (copied / moved into the result); or_else: the value is
+        else if (op == "vnm") { auto r = etl::move(x).and_then([](A&&) { return etl::expected<int, B>(etl::in_place, 1); }); (void)r; }
+        else if (op == "vrm") { auto r = etl::move(x).or_else([](B&&) { return etl::expected<A, int>(etl::unexpect, 1); }); (void)r; }
         else {
             if constexpr (A::copyable) {
                 if (op == "vvc") { A d(s.x); { A r = x.value_or(d); (void)r; } }
+                else if (op == "vnc") { auto r = std::as_const(x).and_then([](A const&) { return etl::expected<int, B>(etl::in_place, 1); }); (void)r; }
+                else if (op == "vnl") { auto r = x.and_then([](A&) { return etl::expected<int, B>(etl::in_place, 1); }); (void)r; }
+                else if (op == "vrc") { auto r = std::as_const(x).or_else([](B const&) { return etl::expected<A, int>(etl::unexpect, 1); }); (void)r; }
                 else if (op == "vca") { x = y; }
                 else if (op == "vsc") { auto& r = x; x = r; }
                 else if (op == "vcc") { Obj c(x); }
@@ -590,6 +678,9 @@ struct FunAd {
         auto const& op = s.op;
         if (op == "fas") {
             if (s.j == 1) { x = C1(s.x); } else { x = C2(s.x); }
+        }
+        else if (op == "fac") {
+            if (s.j == 1) { C1 c(s.x); x = c; } else { C2 c(s.x); x = c; }
         }
         else if (op == "fan") { x = nullptr; }
         else if (op == "fca") { x = y; }
@@ -663,15 +754,20 @@ static void run_own(std::vector<OStep> const& steps, Out& impl, bool monitor_onl
         if (contract) { stopped = true; break; }
         if (own_is_self(s.op)) { selfs += (obs(*v[s.t]) == before) ? " 1" : " 0"; }
     }
+    bool wf_prefix = mon.wf;
     v[0]->~Obj();
     v[1]->~Obj();
+    if (stopped) {
+        if (!monitor_only) { impl.tok("; stopped ; wf").b(wf_prefix); }
+        else { impl.tok("contract wf").b(wf_prefix); }
+        return;
+    }
     auto so = mon.run(where, trk::g_log, done);
     (void)mon_storage.run(storage, trk::g_log, done);
     if (!monitor_only) {
         impl.tok("; end /").tok(trk::render(so, g_raw));
         impl.tok("; wf").b(mon.wf).tok("alive").num(mon.alive());
     } else {
-        if (stopped) { impl.tok("contract"); }
         impl.tok("wf").b(mon.wf).tok("alive").num(mon.alive()).tok("st").b(mon_storage.wf).tok("self" + selfs);
     }
 }
@@ -709,7 +805,7 @@ static bool own_case(std::string const& op, Toks& in, Out& impl, Out& ref)
         std::string selfs;
         for (auto const& s : steps) {
             auto const& o = s.op;
-            if (o == "vem" || o == "var" || o == "vac" || o == "vav" || o == "vat" || o == "fas") { idx[s.t] = s.j; }
+            if (o == "vem" || o == "var" || o == "vac" || o == "vav" || o == "vat" || o == "fas" || o == "vau" || o == "vaw" || o == "fac") { idx[s.t] = s.j; }
             else if (o == "vca" || o == "vma" || o == "fca") { idx[s.t] = idx[1 - s.t]; }
             else if (o == "fma") { idx[s.t] = idx[1 - s.t]; idx[1 - s.t] = 0; }
             else if (o == "vsw" || o == "fsw") { std::swap(idx[0], idx[1]); }
@@ -737,6 +833,16 @@ struct PairAd {
     static void swap(Obj& a, Obj& b) { a.swap(b); }
     static constexpr bool by_tag      = true;
     static constexpr std::size_t elem = 1;
+    // pair(T1 const&, T2 const&) / pair(U1&&, U2&&)
+    static void ctor_copy_each() { if constexpr (copyable) { T<0> const e0(50); T<1> const e1(51); { Obj c(e0, e1); } } }
+    static void ctor_move_each() { T<0> e0(50); T<1> e1(51); { Obj c(etl::move(e0), etl::move(e1)); } }
+    // converting constructors / assignments from a pair<U1, U2> whose members convert to T1 / T2
+    static constexpr bool has_conv = true;
+    using Q = etl::pair<trk::Der<T<0>>, trk::Der<T<1>>>;
+    static void conv_copy_ctor() { if constexpr (copyable) { Q q(50, 51); { Obj c(q); } } }
+    static void conv_move_ctor() { Q q(50, 51); { Obj c(etl::move(q)); } }
+    static void conv_copy_assign(Obj& x) { if constexpr (copyable) { Q q(50, 51); x = q; } }
+    static void conv_move_assign(Obj& x) { Q q(50, 51); x = etl::move(q); }
 };
 
 template <template <int> class T>
@@ -748,6 +854,13 @@ struct TupleAd {
     static void swap(Obj& a, Obj& b) { a.swap(b); }
     static constexpr bool by_tag      = true;
     static constexpr std::size_t elem = 1;
+    // tuple(Ts const&...) / tuple(Args&&...)
+    static void ctor_copy_each()
+    {
+        if constexpr (copyable) { T<0> const e0(50); T<1> const e1(51); T<2> const e2(52); { Obj c(e0, e1, e2); } }
+    }
+    static void ctor_move_each() { T<0> e0(50); T<1> e1(51); T<2> e2(52); { Obj c(etl::move(e0), etl::move(e1), etl::move(e2)); } }
+    static constexpr bool has_conv = false;
 };
 
 // T a[3]: etl::swap(T (&)[N], T (&)[N]) element by element; everything else is the compiler's member-wise code
@@ -765,6 +878,12 @@ struct ArrayAd {
     }
     static auto values(Obj const& p) -> std::vector<int> { return {p.a[0].v, p.a[1].v, p.a[2].v}; }
     static void swap(Obj& x, Obj& y) { etl::swap(x.a, y.a); }
+    static void ctor_copy_each()
+    {
+        if constexpr (copyable) { T<0> const e0(50); T<0> const e1(51); T<0> const e2(52); { Obj c{{e0, e1, e2}}; } }
+    }
+    static void ctor_move_each() { T<0> e0(50); T<0> e1(51); T<0> e2(52); { Obj c{{etl::move(e0), etl::move(e1), etl::move(e2)}}; } }
+    static constexpr bool has_conv = false;
 };
 
 static bool agg_is_self(std::string const& op) { return op == "asc" || op == "asm" || op == "ass"; }
@@ -804,6 +923,16 @@ static void run_agg(std::vector<OStep> const& steps, Out& impl, bool monitor_onl
         else if (op == "amc") { Obj c(etl::move(x)); }
         else if (op == "asw") { Ad::swap(*v[0], *v[1]); }
         else if (op == "ass") { Ad::swap(x, x); }
+        else if (op == "ace") { Ad::ctor_copy_each(); }
+        else if (op == "ame") { Ad::ctor_move_each(); }
+        else if (op == "acp" || op == "amp" || op == "aqa" || op == "aqm") {
+            if constexpr (Ad::has_conv) {
+                if (op == "acp") { Ad::conv_copy_ctor(); }
+                else if (op == "amp") { Ad::conv_move_ctor(); }
+                else if (op == "aqa") { Ad::conv_copy_assign(x); }
+                else { Ad::conv_move_assign(x); }
+            }
+        }
         else {
             if constexpr (Ad::copyable) {
                 if (op == "aca") { x = y; }
@@ -854,7 +983,7 @@ static bool agg_case(std::string const& op, Toks& in, Out& impl, Out& ref)
     for (i64 i = 0; i < k; ++i) {
         OStep s;
         s.op = in.str();
-        if (s.op != "asw") { s.t = static_cast<int>(in.num()); }
+        if (s.op != "asw" && s.op != "ace" && s.op != "ame" && s.op != "acp" && s.op != "amp") { s.t = static_cast<int>(in.num()); }
         steps.push_back(s);
     }
     auto kind = family.substr(0, 2);
@@ -872,8 +1001,82 @@ static bool agg_case(std::string const& op, Toks& in, Out& impl, Out& ref)
     return true;
 }
 
+// =================================================================================================
+// pcopy <iv|sv> <cap> <n> <m> <cc|mc|ca|ma>: element type trk::TrkP (trivial default constructor, destructor
+// and copy assignment, USER-PROVIDED copy constructor).  Object 0 holds n elements 1..n, object 1 m elements
+// 101..; then  cc: Vec c(v0)   mc: Vec c(move(v0))   ca: v1 = v0   ma: v1 = move(v0).
+// impl leg = the copy constructions of that operation as C:<dst>:<src> (s<object>.<slot>, object 2 = c, x =
+// any other storage) and both objects afterwards; reference leg = one copy construction per element of v0
+// into the same slot of the target, nothing else (no destructor / assignment event exists for this type).
+// =================================================================================================
+template <typename Vec, bool Iv>
+static void run_pcopy(std::size_t cap, i64 n, i64 m, std::string const& what, Out& impl)
+{
+    using T = trk::TrkP;
+    alignas(Vec) static unsigned char raw[3][sizeof(Vec)];
+    trk::g_log.clear();
+    Vec* v0 = new (raw[0]) Vec{};
+    Vec* v1 = new (raw[1]) Vec{};
+    for (i64 i = 0; i < n; ++i) { if constexpr (Iv) { (void)v0->unchecked_emplace_back(static_cast<int>(1 + i)); } else { v0->emplace_back(static_cast<int>(1 + i)); } }
+    for (i64 i = 0; i < m; ++i) { if constexpr (Iv) { (void)v1->unchecked_emplace_back(static_cast<int>(101 + i)); } else { v1->emplace_back(static_cast<int>(101 + i)); } }
+    trk::g_log.clear();
+    Vec* c = nullptr;
+    if (what == "cc") { c = new (raw[2]) Vec(*v0); }
+    else if (what == "mc") { c = new (raw[2]) Vec(etl::move(*v0)); }
+    else if (what == "ca") { *v1 = *v0; }
+    else if (what == "ma") { *v1 = etl::move(*v0); }
+    char const* base[3] = {reinterpret_cast<char const*>(v0->data()), reinterpret_cast<char const*>(v1->data()),
+                           c != nullptr ? reinterpret_cast<char const*>(c->data()) : nullptr};
+    auto name = [&](void const* p) -> std::string {
+        auto const* q = static_cast<char const*>(p);
+        for (int k = 0; k < 3; ++k) {
+            if (base[k] != nullptr && q >= base[k] && q < base[k] + sizeof(T) * cap && (q - base[k]) % static_cast<std::ptrdiff_t>(sizeof(T)) == 0) {
+                return "s" + std::to_string(k) + "." + std::to_string((q - base[k]) / static_cast<std::ptrdiff_t>(sizeof(T)));
+            }
+        }
+        return "x";
+    };
+    for (auto const& e : trk::g_log) {
+        if (e.kind == trk::CC) { impl.tok("C:" + name(e.self) + ":" + name(e.other)); }
+        else { impl.tok("E" + std::to_string(e.kind) + ":" + name(e.self)); }
+    }
+    impl.tok(";");
+    for (Vec* p : {v0, v1}) {
+        impl.num(static_cast<i64>(p->size()));
+        for (auto const& e : *p) { impl.num(e.v); }
+    }
+    if (c != nullptr) { c->~Vec(); }
+    v0->~Vec();
+    v1->~Vec();
+}
+
+static bool pcopy_case(Toks& in, Out& impl, Out& ref)
+{
+    auto kind = in.str();
+    auto cap  = in.num();
+    auto n    = in.num();
+    auto m    = in.num();
+    auto what = in.str();
+    if (n < 0 || m < 0 || n > cap || m > cap) { impl.tok("bad-case"); return true; }
+    bool ok = false;
+    if (kind == "iv") { ok = with_cap(cap, [&]<std::size_t N>() { run_pcopy<etl::inplace_vector<trk::TrkP, N>, true>(N, n, m, what, impl); }); }
+    else { ok = with_cap(cap, [&]<std::size_t N>() { run_pcopy<etl::static_vector<trk::TrkP, N>, false>(N, n, m, what, impl); }); }
+    if (!ok) { impl.tok("bad-instantiation"); return true; }
+    // the property: one copy construction per element, slot i from slot i, and the values
+    bool to_third = what == "cc" || what == "mc";
+    for (i64 i = 0; i < n; ++i) { ref.tok("C:s" + std::string(to_third ? "2" : "1") + "." + std::to_string(i) + ":s0." + std::to_string(i)); }
+    ref.tok(";");
+    bool moved = what == "mc" || what == "ma";
+    if (kind == "iv" && moved) { ref.num(0); }       // inplace_vector: the moved-from vector is cleared
+    else { ref.num(n); for (i64 i = 0; i < n; ++i) { ref.num(1 + i); } }
+    if (to_third) { ref.num(m); for (i64 i = 0; i < m; ++i) { ref.num(101 + i); } }
+    else { ref.num(n); for (i64 i = 0; i < n; ++i) { ref.num(1 + i); } }
+    return true;
+}
+
 bool vh::run_case(std::string const& op, Toks& in, Out& impl, Out& ref)
 {
+    if (op == "pcopy") { return pcopy_case(in, impl, ref); }
     if (op == "ohist" || op == "orawhist" || op == "omon") { return own_case(op, in, impl, ref); }
     if (op == "ahist" || op == "arawhist" || op == "amon") { return agg_case(op, in, impl, ref); }
     if (op != "hist" && op != "rawhist" && op != "mon") { return false; }
